@@ -434,7 +434,7 @@ Section C05.
   Lemma run_inv5 ops : forall s, inv5 s -> inv5 (run P s ops) /\ keeps (is_akey P) s (run P s ops).
   Proof.
     induction ops as [|o ops IH]; intros s I; cbn [run]; [split; [exact I | apply keeps_refl]|].
-    unfold step. destruct (exec P (fst o) s (snd o)) as [s'| |] eqn:E; cbn [fst]; try (apply IH; exact I).
+    unfold step. destruct (deliver P (fst o) s (snd o)) as [s'| |] eqn:E0; [apply deliver_ok in E0 as E| |]; cbn [fst]; try (apply IH; exact I).
     destruct (inv5_exec _ _ _ _ I E) as [I' K'].
     destruct (IH s' I') as [I'' K'']. split; [exact I'' | eapply keeps_trans; eauto].
   Qed.
